@@ -39,9 +39,9 @@ def ser_inline(e) -> str:
     if isinstance(e, inline.Link):
         return f"( link {S(e.dest)} {optS(e.title if e.title else None)} " + " ".join(ser_inline(c) for c in e.children) + " )"
     if isinstance(e, gfm.Url):
-        return f"( url {S(e.dest)} )"
+        return f"( url {S(e.children[0].children)} )"
     if isinstance(e, inline.AutoLink):
-        return f"( autolink {S(e.dest)} )"
+        return f"( autolink {S(e.children[0].children)} )"
     if isinstance(e, inline.LineBreak):
         return f"( br {'1' if e.soft else '0'} )"
     if isinstance(e, inline.Literal):
